@@ -130,12 +130,12 @@ theorem common_loop1 (a b : W) (e : Entry) :
     PyFun.get_common_xs_loop1 (wi a, wi b) (kmInt e) = (wi (a ||| e.key), wi (b ||| e.mask)) := by
   unfold PyFun.get_common_xs_loop1 kmInt
   dsimp only
-  first
-  | rw [wi_lor, wi_lor]
-  | (simp only [Prod.mk.injEq]; constructor <;>
-     (apply eq_of_testBit_eq; intro i
-      simp only [Int.testBit_lor, Int.testBit_land, Int.testBit_lxor, wi_testBit, BitVec.getLsbD_or]
-      try (cases a.getLsbD i <;> cases b.getLsbD i <;> cases e.key.getLsbD i <;> cases e.mask.getLsbD i <;> rfl)))
+  simp only [wi_lor, Prod.mk.injEq, wi_inj]
+  try (constructor <;> first
+    | rfl
+    | trivial
+    | (apply BitVec.eq_of_getLsbD_eq; intro i hi
+       simp only [BitVec.getLsbD_or, BitVec.getLsbD_and, BitVec.getLsbD_xor]; grind))
 
 theorem common_fold (T : List Entry) : ∀ (a b : W),
     (T.map kmInt).foldl PyFun.get_common_xs_loop1 (wi a, wi b)
